@@ -88,8 +88,10 @@ def random_name(rng, used, lo=1, hi=4):
             return name
 
 
-def drawing_events(A, inp, m, fam, lab, seed):
-    """One drawn reconciliation with random names, colours and widths -> trace events."""
+def drawing_events(A, inp, m, fam, lab, seed, shift=0):
+    """One drawn reconciliation with random names, colours and widths -> trace events.
+    `shift` moves the wrap width of an otherwise identical drawing (the same
+    labels drawn again at another width in the same process)."""
     rng = random.Random(seed)
     ot = inp["ot"]
     used = set()
@@ -110,13 +112,13 @@ def drawing_events(A, inp, m, fam, lab, seed):
     if fam != "dtl":   # leaf syntenies of the input use the same family names
         for node, fams_ in list(rec.input.leaf_syntenies.items()):
             rec.input.leaf_syntenies[node] = [fam_names[proj.fam_id(f)] for f in fams_]
-    width = rng.randint(1, 30)
+    width = 1 + (rng.randint(1, 30) - 1 + shift) % 30
     orient = rng.choice(["V", "H"])
     params = rc.params_for(A, "VERTICAL" if orient == "V" else "HORIZONTAL", None, event_label_width=width,
                            species_label_width=rng.choice([None, 5, 21]))
     base = {"in": {"ot": list(ot), "st": list(inp["st"]), "lm": list(inp["lm"])}, "m": list(m), "seed": seed, "fam": fam,
             "lab": sol["lab"], "syn": [list(s) for s in inp.get("syn", [])], "names": onames,
-            "colours": {str(k): v for k, v in colours.items()}, "width": width, "orient": orient}
+            "colours": {str(k): v for k, v in colours.items()}, "width": width, "orient": orient, "shift": shift}
     res = rc.render(A, rec, params, seed)
     if isinstance(res, mc.Raised):
         return [dict(base, op="doc", tokens=[{"t": "?", "c": ""}], exc=res.text)], []
@@ -214,6 +216,8 @@ def run(ctx):
                 sinp = sc.sinput(inp["ot"], inp["st"], inp["lm"], inp["c"], [sorted(s) for s in syn])
                 lab = c13.labels_for(rng, sinp, m, fam)
             jobs.append((sinp, m, fam, lab, seed))
+            if fam != "dtl" and seed % 3 == 0:   # the same labels again, another width, same process
+                jobs.append((sinp, m, fam, lab, seed, rng.choice([5, 11, 19])))
     import multiprocessing
     size = max(1, len(jobs) // 96)
     chunks = [jobs[i:i + size] for i in range(0, len(jobs), size)]
@@ -305,7 +309,10 @@ def replay(path):
     if "in" not in e:
         return 2
     inp = sc.sinput(e["in"]["ot"], e["in"]["st"], e["in"]["lm"], gen.cost(0, 1, 1, 1, 1), e.get("syn") or [[] for _ in e["in"]["ot"]])
-    docs, cols = drawing_events(A, inp, e["m"], e.get("fam", "dtl"), e.get("lab") or None, e.get("seed", 0))
+    if e.get("shift"):   # second drawing of a pair: the first one comes first, as in the run
+        drawing_events(A, inp, e["m"], e.get("fam", "dtl"), e.get("lab") or None, e.get("seed", 0))
+    docs, cols = drawing_events(A, inp, e["m"], e.get("fam", "dtl"), e.get("lab") or None, e.get("seed", 0),
+                                e.get("shift", 0))
     print("colours:", cols[0]["colours"] if cols else None, "drawn:", cols[0]["drawn"] if cols else None)
     bad = len(mc.validate_sessions(ctx, "TraceTikz", [docs], relevant=DOC_CLAUSES))
     bad += len(mc.validate_sessions(ctx, "TraceDrawing", [cols], relevant=COLOUR_CLAUSES))
